@@ -178,8 +178,8 @@ Definition is_factory (f : fact) : bool :=
   match f with FLeaf _ | FPar _ _ => true | _ => false end.
 Definition nonzero (r : real) : bool := negb (real_zero r).
 
-(* the side condition under which the geometry is derivable: surface/cell numbers are not zero; two facts
-   may touch without padding only when the second is a surface number or a parenthesis (never a complement) *)
+(* the side condition under which the geometry is derivable: surface/cell numbers are not zero (two facts may
+   touch without padding: `geometry_term geometry_factor`; the generator only lets them touch at a parenthesis) *)
 Fixpoint fact_ok (f : fact) : bool :=
   match f with
   | FLeaf r => nonzero r
@@ -190,7 +190,7 @@ Fixpoint fact_ok (f : fact) : bool :=
 with term_ok (t : term) : bool :=
   match t with
   | TOne f => fact_ok f
-  | TAnd t' sep f => term_ok t' && fact_ok f && (match sep with Some _ => true | None => is_factory f end)
+  | TAnd t' sep f => term_ok t' && fact_ok f
   end
 with expr_ok (e : expr) : bool :=
   match e with
@@ -260,15 +260,13 @@ Fixpoint cvseq_toks (s : cvseq) : list token :=
       cvseq_toks s' ++ [("(", "(")] ++ opad_toks pl ++ nlist_toks inner ++ [(")", ")")] ++ opad_toks p
   | CVParen pl inner p => [("(", "(")] ++ opad_toks pl ++ nlist_toks inner ++ [(")", ")")] ++ opad_toks p
   end.
-(* CellParser has no production for padding directly after the "(" of a FILL/TRCL value *)
-Definition no_pad (p : option pad) : bool := match p with None => true | Some _ => false end.
 Fixpoint cvseq_ok (s : cvseq) : bool :=
   match s with
   | CVList l => nlist_ok l
   | CVRange s' _ _ => cvseq_ok s'
   | CVNum s' i _ => cvseq_ok s' && is_start i
-  | CVGroup s' pl inner _ => cvseq_ok s' && nlist_ok inner && no_pad pl
-  | CVParen pl inner _ => nlist_ok inner && no_pad pl
+  | CVGroup s' pl inner _ => cvseq_ok s' && nlist_ok inner
+  | CVParen pl inner _ => nlist_ok inner
   end.
 
 Inductive sepshape := SepPad (p : pad) | SepEq (pl pr : option pad).
@@ -285,7 +283,10 @@ Definition core_cell_keys : list string :=
 (* not "c": the lexers take a "c" that is followed by a blank or a line end for a comment line *)
 Definition core_letter_particles : list string :=
   ["n"; "p"; "e"; "q"; "v"; "f"; "h"; "l"; "o"; "g"; "k"; "b"; "w"; "d"; "t"; "s"; "a"].
-Definition core_special_particles : list string := ["|"; "<"; ">"; "%"; "*"; "?"].
+Definition core_special_particles : list string := ["|"; "<"; ">"; "%"; "*"; "?"; "+"].
+(* directly after the ":" or "," of a classifier the lexers also read the designators that are keywords (u x y z)
+   or look like a comment line (c) as particles *)
+Definition core_classifier_particles : list string := core_letter_particles ++ ["u"; "x"; "y"; "z"; "c"].
 
 Fixpoint parts_toks (first : bool) (ps : list token) : list token :=
   match ps with
@@ -305,7 +306,7 @@ Definition cparam_toks (c : cparam) : list token :=
 Definition nat_nonzero (n : option Z) : bool := match n with Some z => (0 <? z)%Z | None => true end.
 Definition cparam_ok (c : cparam) : bool :=
   mem_str (cp_key c) core_cell_keys && nat_nonzero (cp_num c)
-  && forallb (fun p => mem_str p core_letter_particles) (cp_parts c) && cvseq_ok (cp_val c).
+  && forallb (fun p => mem_str p core_classifier_particles) (cp_parts c) && cvseq_ok (cp_val c).
 
 Inductive matspec :=
 | MVoid (z : real) (p : pad)
@@ -372,13 +373,16 @@ Definition dcls_toks (d : dcls) : list token :=
   ++ [(word_class (d_prefix d), d_prefix d)]
   ++ (match d_num d with Some n => [("NUMBER", show_Z n)] | None => [] end)
   ++ parts_toks true (map dpart_tok (d_parts d)).
+(* a particle in a list (MODE n p, PAR=n) *)
 Definition dpart_ok (p : bool * string) : bool :=
   if fst p then mem_str (snd p) core_special_particles else mem_str (snd p) core_letter_particles.
-(* the only modifier the data lexer classifies as one is "*" ("+" is swallowed by FILE_PATH) *)
+(* a particle of a classifier (IMP:n,u) *)
+Definition cpart_ok (p : bool * string) : bool :=
+  if fst p then mem_str (snd p) core_special_particles else mem_str (snd p) core_classifier_particles.
 Definition dmod_ok (m : option string) : bool :=
-  match m with None => true | Some s => String.eqb s "*" end.
+  match m with None => true | Some s => String.eqb s "*" || String.eqb s "+" end.
 Definition dcls_ok (d : dcls) : bool :=
-  dmod_ok (d_mod d) && nat_nonzero (d_num d) && forallb dpart_ok (d_parts d).
+  dmod_ok (d_mod d) && nat_nonzero (d_num d) && forallb cpart_ok (d_parts d).
 
 (* ---- generic data cards: classifier [KEYWORD] [data] { key = numbers } *)
 Definition core_dist_options : list string := ["h"; "l"; "a"; "s"; "d"; "v"].
@@ -478,6 +482,10 @@ Definition sdef_toks (s : sdefcard) : list token :=
 Definition sdef_shape_b (s : sdefcard) : bool :=
   dcls_ok (sd_cls s) && forallb sparam_ok (sd_first s :: sd_rest s).
 Definition sdef_shape (s : sdefcard) : Prop := sdef_shape_b s = true.
+(* a bare SDEF (every parameter has a default): [padding] classifier [padding] *)
+Record sdef0card := mkSdef0 { s0_lead : option pad; s0_cls : dcls; s0_pad : option pad }.
+Definition sdef0_toks (s : sdef0card) : list token :=
+  opad_toks (s0_lead s) ++ dcls_toks (s0_cls s) ++ opad_toks (s0_pad s).
 
 (* ---- FCn / SCn comment cards: the lexer makes the whole line one TALLY_COMMENT / SOURCE_COMMENT token *)
 Record textcard := mkText { x_lead : option pad; x_source : bool; x_text : string }.
@@ -498,18 +506,9 @@ Definition core_mat_keys : list string :=
   ["gas"; "estep"; "hstep"; "nlib"; "plib"; "pnlib"; "elib"; "hlib"; "alib"; "slib"; "tlib"; "dlib";
    "cond"; "refi"; "refc"; "refs"].
 Definition mparam_key (m : mparam) : string := match m with MPNum k _ _ | MPLib k _ _ _ => k end.
-Fixpoint last_char (s : string) : option ascii :=
-  match s with
-  | EmptyString => None
-  | String a EmptyString => Some a
-  | String _ r => last_char r
-  end.
-(* a library identifier that ends in "e" is lexed as a NUMBER with an empty exponent, not as a NUMBER_WORD *)
-Definition lib_ok (lib : string) : bool :=
-  match last_char lib with Some a => negb (Ascii.eqb a "e"%char) | None => false end.
 Definition mparam_ok (m : mparam) : bool :=
   mem_str (mparam_key m) core_mat_keys
-  && match m with MPNum _ _ v => nlist_ok v | MPLib _ _ lib _ => lib_ok lib end.
+  && match m with MPNum _ _ v => nlist_ok v | MPLib _ _ _ _ => true end.
 
 (* [z_lib = true]: "1001.80c" (one ZAID token); [false]: "1001" (a NUMBER token) *)
 Record zfrac := mkZ { z_lib : bool; z_zaid : string; z_pad : option pad; z_frac : real; z_trail : option pad }.
@@ -522,16 +521,9 @@ Record matcard := mkMat {
 Definition mat_card_toks (m : matcard) : list token :=
   opad_toks (m_lead m) ++ [("TEXT", "m"); ("NUMBER", show_Z (m_num m))] ++ opad_toks (m_pad m)
   ++ zfrac_toks (m_first m) ++ flat_map zfrac_toks (m_rest m) ++ flat_map mparam_toks (m_params m).
-(* MaterialParser: isotopes ::= ZAID pairs | plain numbers | plain numbers followed by ZAID pairs;
-   a plain pair after a ZAID pair has no production *)
-Fixpoint plain_first (seen_lib : bool) (l : list zfrac) : bool :=
-  match l with
-  | [] => true
-  | z :: r => if z_lib z then plain_first true r else negb seen_lib && plain_first false r
-  end.
 Definition matcard_shape_b (m : matcard) : bool :=
   (0 <? m_num m)%Z && forallb (fun z => nonzero (z_frac z)) (m_first m :: m_rest m)
-  && plain_first false (m_first m :: m_rest m) && forallb mparam_ok (m_params m).
+  && forallb mparam_ok (m_params m).
 Definition matcard_shape (m : matcard) : Prop := matcard_shape_b m = true.
 
 (* ---- thermal scattering cards *)
@@ -547,13 +539,15 @@ Definition mtcard_shape (m : mtcard) : Prop := (0 <? t_num m)%Z = true.
 (* ---- a shape is one card *)
 Inductive shape :=
 | ShCell (c : cell) | ShSurf (s : surf) | ShData (d : datacard) | ShMat (m : matcard) | ShMT (m : mtcard)
-| ShTally (t : tallycard) | ShTallySeg (t : tallycard) | ShSdef (s : sdefcard) | ShText (x : textcard).
+| ShTally (t : tallycard) | ShTallySeg (t : tallycard) | ShSdef (s : sdefcard) | ShText (x : textcard)
+| ShSdef0 (s : sdef0card).
 Definition gen (sh : shape) : list token :=
   match sh with
   | ShCell c => cell_toks c | ShSurf s => surf_toks s | ShData d => data_toks d
   | ShMat m => mat_card_toks m | ShMT m => mt_card_toks m
   | ShTally t => tally_toks t | ShTallySeg t => tally_toks t | ShSdef s => sdef_toks s
   | ShText x => text_toks x
+  | ShSdef0 s => sdef0_toks s
   end.
 Definition shape_ok_b (sh : shape) : bool :=
   match sh with
@@ -561,6 +555,7 @@ Definition shape_ok_b (sh : shape) : bool :=
   | ShMat m => matcard_shape_b m | ShMT m => (0 <? t_num m)%Z
   | ShTally t => tally_shape_b t | ShTallySeg t => tallyseg_shape_b t | ShSdef s => sdef_shape_b s
   | ShText _ => true
+  | ShSdef0 s => dcls_ok (s0_cls s)
   end.
 (* the token classes of the classifier of a data input: what _ClassifierInput hands to ClassifierParser *)
 Definition classifier_toks (sh : shape) : list token :=
@@ -568,6 +563,7 @@ Definition classifier_toks (sh : shape) : list token :=
   | ShData d => opad_toks (dc_lead d) ++ dcls_toks (dc_cls d)
   | ShTally t | ShTallySeg t => opad_toks (tc_lead t) ++ dcls_toks (tc_cls t)
   | ShSdef s => opad_toks (sd_lead s) ++ dcls_toks (sd_cls s)
+  | ShSdef0 s => opad_toks (s0_lead s) ++ dcls_toks (s0_cls s)
   | ShMat m => opad_toks (m_lead m) ++ [("TEXT", "m"); ("NUMBER", show_Z (m_num m))]
   | ShMT m => opad_toks (t_lead m) ++ [("TEXT", "mt"); ("NUMBER", show_Z (t_num m))]
   | ShText x => text_toks x
@@ -764,6 +760,7 @@ Definition parser_of (sh : shape) : string :=
   | ShCell _ => "cell" | ShSurf _ => "surface" | ShData _ => "data" | ShMat _ => "material"
   | ShMT _ => "thermal" | ShTally _ => "tally" | ShTallySeg _ => "tally_seg" | ShSdef _ => "param_only"
   | ShText _ => "data"
+  | ShSdef0 _ => "param_only"
   end.
 
 (* ------------------------------------------------------------------ 4. wire entry *)
@@ -923,6 +920,8 @@ Definition step (st : option (list val)) (w : string) : option (list val) :=
     | ["spsadd"], VSP p :: VSPS l :: s => Some (VSPS (l ++ [p]) :: s)
     | ["sdef"; md; pfx; n; parts], VSPS rest :: VSP first :: VP p :: VOP lead :: s =>
         option_map (fun c => VShape (ShSdef (mkSdef lead c p first rest)) :: s) (mk_dcls md pfx n parts)
+    | ["sdef0"; md; pfx; n; parts], VOP p :: VOP lead :: s =>
+        option_map (fun c => VShape (ShSdef0 (mkSdef0 lead c p)) :: s) (mk_dcls md pfx n parts)
     | ["text"; src; t], VOP lead :: s =>
         Some (VShape (ShText (mkText lead (String.eqb src "1") (hex_decode t))) :: s)
     | ["zaid"; lib; z], VOP tr :: VR fr :: VOP p :: s =>
